@@ -1,3 +1,3 @@
--- This module serves as the root of the `ZarrsModel` library.
--- Import modules here that should be built as part of the library.
-import ZarrsModel.Basic
+import ZarrsModel.Model.Index
+import ZarrsModel.Model.Subset
+import ZarrsModel.Model.Iter
